@@ -182,15 +182,12 @@ def run(ck):
                 argv[f['idx']] = mut[f['idx']]
             argv += mut[nb:]
             toks += [f['name'], c]
-        # `--near-field` changes which results are computed by default (the near field only): the far-field angles and the
-        # radials are then not evaluated at all.  The composition rule speaks about inputs that are all evaluated, so both
-        # kinds of result are requested explicitly when a near-field cell is in the sample
-        if any(a.startswith('--near-field') for a in argv):
-            if not any(a.startswith('--option') for a in argv):
-                argv.append('--option=far-field')
-            argv.append('--option=near-field')
+        # which results are computed is part of the model (`composeSel`): `--near-field` without `--option` selects the near
+        # field only, and the far-field angles, powers and radials are then not looked at
+        optsel = [a.split('=', 1)[1] for a in argv if a.startswith('--option=')]
+        ng = any(a.startswith('--near-field') for a in argv)
         o, det = fuzzcmd.outcome(argv, limit=60)
-        want = d.ask('guard compose', *toks)
+        want = d.ask('guard composesel', ','.join(optsel) or '-', '1' if ng else '0', *toks)
         done += 1
         ck.case(('compose', tuple(toks)), True)
         ck.count('compose_' + o)
@@ -198,6 +195,38 @@ def run(ck):
             viol.append(dict(kind='compose', argv=argv, observed='%s %s' % (o, det), cells=toks))
         elif o != 'timeout' and o != want:
             dis.append(dict(why='inputs %r together: implementation %s, composition rule %s' % (toks, o, want), argv=argv))
+    # 1c'. the result selection of the model against `main`: every cell of the table that belongs to one result (and a sample /
+    # in the thorough tier all of the others) under every combination of result options, with and without `--near-field`
+    NF = '--near-field=1,1,1,1,1,1,2,1,1'
+    variants = [[]] + [list(c_) for r_ in (1, 2, 3) for c_ in itertools.combinations(['far-field', 'far-field-absolute', 'near-field', 'none'], r_)]
+    staged = {'radial_count', 'ff_power', 'ff_distance', 'theta_start', 'phi_inc', 'nf_power'}
+    cells = [(f, c) for f in c20table.FIELDS for c in c20table.CLASSES if c20table.mutated(f, c) is not None]
+    cells_staged = [(f, c) for f, c in cells if f['name'] in staged]
+    others = [(f, c) for f, c in cells if f['name'] not in staged]
+    if ck.tier == 'quick':
+        others = rng.sample(others, 40)
+    nsel = 0
+    for f, c in cells_staged + others:
+        a0 = [a for a in c20table.mutated(f, c) if not a.startswith('--option=')]
+        for var in (variants if (f['name'] in staged or ck.tier != 'quick') else rng.sample(variants, 4)):
+            for addnf in (False, True):
+                argv = a0 + ['--option=' + v for v in var]
+                if addnf and not any(a.startswith('--near-field') for a in argv):
+                    argv.append(NF)
+                ng = any(a.startswith('--near-field') for a in argv)
+                if ng and not addnf:
+                    continue                     # the cell brings its own near-field parameters: one run is enough
+                o, det = fuzzcmd.outcome(argv, limit=60)
+                want = d.ask('guard composesel', ','.join(var) or '-', '1' if ng else '0', f['name'], c)
+                nsel += 1
+                ck.case(('select', f['name'], c, tuple(var), ng), True)
+                ck.count('select_' + o)
+                if o not in ('usage', 'diag', 'report', 'timeout'):
+                    viol.append(dict(kind='select', argv=argv, observed='%s %s' % (o, det), cells=[f['name'], c]))
+                elif o != 'timeout' and o != want:
+                    dis.append(dict(why='input %s/%s with results %r%s: implementation %s, selection model %s'
+                                    % (f['name'], c, var, ' and near-field parameters' if ng else '', o, want), argv=argv))
+    ck.cov['selection_runs'] = nsel
     # 1d. runs whose *numerical* part fails (singular matrix of doubled conductors, an overflowing sweep, a frequency
     # at the bottom of the float range), each also with the timing option: the diagnostic, whatever else was asked to be printed
     kfail = [['-f', '7', '-w', '4,0,0,0,1,0,0,0.001', '-w', '4,0,0,0,1,0,0,0.001', '--excitation-pulse=1'],
